@@ -660,6 +660,9 @@ def method_call(ev, recv, name, args, kwargs, fr, node):
             if name == 'extend' and T.tag(cur) == 'list' and T.tag(args[0]) in ('list', 'tuple'):
                 fr.env[var] = T.lst(list(cur[1]) + list(args[0][1]))
                 return T.NONE
+            if name in ('append', 'extend') and len(args) == 1 and (T.tag(cur) == 'sym' or T.is_op(cur, 'APPEND') or T.is_op(cur, 'EXTEND')):
+                fr.env[var] = T.raw_op(name.upper(), cur, args[0])
+                return T.NONE
             if name in ('write', 'writelines', 'close', 'flush'):
                 ev.effects.append(('file-write', fr.fn.qual if fr.fn else None, node.lineno,
                                    ast.unparse(node.func)))
